@@ -5,6 +5,7 @@ CONSTANTS
   FixStale = TRUE
   MaxSets = 4
   MaxOps = 7
+  MaxFails = 1
   MaxFaults = 2
   UseKeys = {"k1", "k2", "k3"}
   UseClients = {"c1"}
